@@ -4,7 +4,9 @@
 //! synchronisation steps.  Every round must complete before the watchdog deadline.
 //!
 //! case  (9 seed rounds)
-//! obs   (rounds_ok lost_wakeups stale_effects hangs)
+//! obs   (rounds_ok lost_wakeups stale_effects hangs read_contention_panics)
+//!        read_contention_panics: rounds in which the effect's `s.get()` panicked because
+//!        `Plain::try_new` (non-blocking `try_read`) met the writer's lock (F-C19-f)
 //! round = one async derived value `d` completed by its own task on one thread while two
 //! threads await it (ready()/into_future()/by_ref() at random) and, on two more threads, an
 //! effect that reads signal `s` and `d` is driven by its waker while `s` is written.
@@ -69,7 +71,7 @@ pub fn run(case: &Sexp) -> Sexp {
     let seed = case.at(1).num() as u64;
     let rounds = case.at(2).num();
     let mut rng = seed.wrapping_mul(0x9E3779B97F4A7C15) | 1;
-    let (mut ok, mut lost, mut stale, mut hangs) = (0i64, 0i64, 0i64, 0i64);
+    let (mut ok, mut lost, mut stale, mut hangs, mut contended) = (0i64, 0i64, 0i64, 0i64, 0i64);
     for _ in 0..rounds {
         let owner = Owner::new();
         owner.set();
@@ -109,6 +111,7 @@ pub fn run(case: &Sexp) -> Sexp {
 
         let stop = Arc::new(AtomicBool::new(false));
         let done = Arc::new(AtomicUsize::new(0));
+        let read_panic = Arc::new(AtomicBool::new(false));
         let final_s = 3i64;
         let mut handles = vec![];
         // two awaiters
@@ -175,6 +178,7 @@ pub fn run(case: &Sexp) -> Sexp {
             let jseed = xorshift(&mut rng);
             let stop = Arc::clone(&stop);
             let efut = Arc::clone(&efut);
+            let read_panic = Arc::clone(&read_panic);
             handles.push(std::thread::spawn(move || {
                 ctl::set_jitter(jseed);
                 let tw = Arc::new(ThreadWaker { woken: AtomicBool::new(true), thread: std::thread::current() });
@@ -186,12 +190,17 @@ pub fn run(case: &Sexp) -> Sexp {
                             let _ = efut.lock().unwrap().as_mut().poll(&mut cx);
                         }));
                         if let Err(e) = r {
+                            let msg = e
+                                .downcast_ref::<String>()
+                                .cloned()
+                                .or_else(|| e.downcast_ref::<&str>().map(|s| s.to_string()))
+                                .unwrap_or_default();
+                            if msg.contains("you tried to access a reactive value")
+                                && msg.contains("already been disposed")
+                            {
+                                read_panic.store(true, SeqCst);
+                            }
                             if std::env::var("C19_DEBUG").is_ok() {
-                                let msg = e
-                                    .downcast_ref::<String>()
-                                    .cloned()
-                                    .or_else(|| e.downcast_ref::<&str>().map(|s| s.to_string()))
-                                    .unwrap_or_default();
                                 eprintln!("effect executor panicked: {msg}");
                             }
                             return;
@@ -219,6 +228,9 @@ pub fn run(case: &Sexp) -> Sexp {
         let t0 = Instant::now();
         let mut good = false;
         while t0.elapsed() < Duration::from_millis(5000) {
+            if read_panic.load(SeqCst) {
+                break;
+            }
             if done.load(SeqCst) == 3
                 && last_seen.0.load(SeqCst) == final_s
                 && last_seen.1.load(SeqCst) == 42
@@ -253,6 +265,8 @@ pub fn run(case: &Sexp) -> Sexp {
         };
         if good && all_joined {
             ok += 1;
+        } else if read_panic.load(SeqCst) && all_joined {
+            contended += 1;
         } else if !all_joined {
             hangs += 1; // threads stuck in a lock: leak them
         } else if done.load(SeqCst) < 3 {
@@ -274,5 +288,5 @@ pub fn run(case: &Sexp) -> Sexp {
             std::mem::forget(owner);
         }
     }
-    Lst(vec![Num(ok), Num(lost), Num(stale), Num(hangs)])
+    Lst(vec![Num(ok), Num(lost), Num(stale), Num(hangs), Num(contended)])
 }
